@@ -58,7 +58,7 @@ BuildSymbol(s) ==
      THEN LET p == AST!ParsePrefix(syms') IN
           /\ phase' = "run"
           /\ cfg' = EV!InitCfg(AST!Expand(p.tree), EnvOf(vl)[1])
-          /\ den' = DN!Den(p.tree, EnvOf(vl), F)
+          /\ den' = DN!Den(p.tree, EnvOf(vl), F) @@ [names |-> AST!Names(p.tree)]
           /\ src' = p.src
      ELSE UNCHANGED << phase, cfg, den, src >>
   /\ UNCHANGED vl
@@ -107,6 +107,15 @@ ScopeDiscipline ==
 ScopesClosed == phase = "done" => cfg.env = EnvOf(vl)
 \* Terminates: the stack depth is bounded by the size of the program
 Bounded == phase = "run" => Len(cfg.kont) <= 4 * MaxSyms + 4
+
+\* LookedUpSubsetRefs (C19): every name handed to variable lookup or function dispatch occurs in the
+\* source (macro accumulators aside), and an undeclared outcome names something that was looked up
+LookedUpSubsetRefs ==
+  phase \in {"run", "done"} =>
+    LET names == den.names IN
+    /\ \A lk \in cfg.looked : lk[2] = "@result" \/ lk \in names
+    /\ (cfg.ctrl.m = "raise" /\ "undeclared" \in cfg.ctrl.cs) =>
+          (<< "var", cfg.ctrl.name >> \in cfg.looked \/ << "fn", cfg.ctrl.name >> \in cfg.looked)
 
 \* one vector per complete program, printed when it is loaded
 Emit == (EmitVectors /\ phase = "run" /\ cfg.log = << >> /\ cfg.kont = << >> /\ cfg.ctrl.m = "eval")
